@@ -1141,15 +1141,35 @@ impl<'a, E: ColumnValueEncoder> GenericColumnWriter<'a, E> {
                     self.column_index_builder.to_invalid();
                 }
                 Some(stat) => {
+                    // The bounds that go into the column index. Byte array bounds are stored
+                    // truncated, and truncation is not monotone (a truncated max is incremented,
+                    // UTF-8 is cut at a character boundary), so the boundary order has to be
+                    // tracked on the stored bounds, not on the exact ones.
+                    let (new_min, new_max) = if self.can_truncate_value() {
+                        let truncate_length = self.props.column_index_truncate_length();
+                        let (min_bytes, _) =
+                            self.truncate_min_value(truncate_length, stat.min_bytes_opt().unwrap());
+                        let (max_bytes, _) =
+                            self.truncate_max_value(truncate_length, stat.max_bytes_opt().unwrap());
+                        let mut new_min = stat.min_opt().unwrap().clone();
+                        new_min.set_from_bytes(Bytes::from(min_bytes));
+                        let mut new_max = stat.max_opt().unwrap().clone();
+                        new_max.set_from_bytes(Bytes::from(max_bytes));
+                        (new_min, new_max)
+                    } else {
+                        (
+                            stat.min_opt().unwrap().clone(),
+                            stat.max_opt().unwrap().clone(),
+                        )
+                    };
+
                     // Check if min/max are still ascending/descending across pages
-                    let new_min = stat.min_opt().unwrap();
-                    let new_max = stat.max_opt().unwrap();
                     if let Some((last_min, last_max)) = &self.last_non_null_data_page_min_max {
                         let basic_info = self.descr.get_basic_info();
                         if self.data_page_boundary_ascending {
                             // If last min/max are greater than new min/max then not ascending anymore
-                            let not_ascending = compare_greater(basic_info, last_min, new_min)
-                                || compare_greater(basic_info, last_max, new_max);
+                            let not_ascending = compare_greater(basic_info, last_min, &new_min)
+                                || compare_greater(basic_info, last_max, &new_max);
                             if not_ascending {
                                 self.data_page_boundary_ascending = false;
                             }
@@ -1157,40 +1177,22 @@ impl<'a, E: ColumnValueEncoder> GenericColumnWriter<'a, E> {
 
                         if self.data_page_boundary_descending {
                             // If new min/max are greater than last min/max then not descending anymore
-                            let not_descending = compare_greater(basic_info, new_min, last_min)
-                                || compare_greater(basic_info, new_max, last_max);
+                            let not_descending = compare_greater(basic_info, &new_min, last_min)
+                                || compare_greater(basic_info, &new_max, last_max);
                             if not_descending {
                                 self.data_page_boundary_descending = false;
                             }
                         }
                     }
-                    self.last_non_null_data_page_min_max = Some((new_min.clone(), new_max.clone()));
 
-                    if self.can_truncate_value() {
-                        self.column_index_builder.append(
-                            null_page,
-                            self.truncate_min_value(
-                                self.props.column_index_truncate_length(),
-                                stat.min_bytes_opt().unwrap(),
-                            )
-                            .0,
-                            self.truncate_max_value(
-                                self.props.column_index_truncate_length(),
-                                stat.max_bytes_opt().unwrap(),
-                            )
-                            .0,
-                            self.page_metrics.num_page_nulls as i64,
-                            self.get_nan_count::<E::T>(),
-                        );
-                    } else {
-                        self.column_index_builder.append(
-                            null_page,
-                            stat.min_bytes_opt().unwrap().to_vec(),
-                            stat.max_bytes_opt().unwrap().to_vec(),
-                            self.page_metrics.num_page_nulls as i64,
-                            self.get_nan_count::<E::T>(),
-                        );
-                    }
+                    self.column_index_builder.append(
+                        null_page,
+                        new_min.as_bytes().to_vec(),
+                        new_max.as_bytes().to_vec(),
+                        self.page_metrics.num_page_nulls as i64,
+                        self.get_nan_count::<E::T>(),
+                    );
+                    self.last_non_null_data_page_min_max = Some((new_min, new_max));
                 }
             }
         }
